@@ -173,6 +173,8 @@ def deductive(run: Run, sidecar: str, both: bool, enroll: bool) -> dict[str, Any
         run.crashes.append("zero obligations generated")
     res["_coherent_ok"] = {cid.split("/")[0].replace(".setter", ""): True for cid in enrolled
                            if cid in clauses and clauses[cid]["discharged"] and cid.endswith("/ensures.coherent")}
+    res["runtime_only_clauses"] = sorted([f"{fn}/ensures.{lab}" for fn, cd in sess.side.CONTRACTS.items() for lab in cd.get("runtime_ensures", {})]
+                                         + [f"{fn}/ensures.{lab}" for fn, cd in getattr(sess.side, "RUNTIME_CONTRACTS", {}).items() for lab in cd.get("ensures", {})])
     res["_failing"] = failing
     res["_missing"] = missing
     # obligations that did not exist on the unchanged tree (the changed code performs a new operation: a call whose precondition must
